@@ -811,3 +811,17 @@ Definition pol_failed_gone_b (t : table) (o : op) (t' : table) : bool :=
   | Some e => if checks e / 3 =? 0 then negb (mem_N (eid e) (entry_ids t')) else true
   | None => true
   end.
+
+(* (7) activeReq = the requests that were started and not yet answered: an answer removes its id (whether or not
+   the node is still in the table), a revalidation run only adds ids of the two lists that were not active, every
+   other operation leaves the set of ids alone (it may only mark requests as detached) *)
+Definition aids (g : glob) : list N := map fst (active g).
+Definition pol_active_b (t : table) (o : op) (t' : table) : bool :=
+  match o with
+  | RevalResp id _ _ _ =>
+      list_eqb N.eqb (aids (gl t')) (filter (fun x => negb (x =? id)) (aids (gl t)))
+  | RevalRun _ _ _ =>
+      forallb (fun x => mem_N x (aids (gl t')) ) (aids (gl t)) &&
+      forallb (fun x => mem_N x (aids (gl t)) || mem_N x (fast (gl t) ++ slow (gl t))) (aids (gl t'))
+  | _ => list_eqb N.eqb (aids (gl t')) (aids (gl t))
+  end.
